@@ -53,6 +53,27 @@ theorem compare_antisymm_needs_compatible :
    { name := [], ty := 1, cls := 1, flush := false, ttl := 120, rdata := .a [10, 0, 0, 1], start := 0, stop := 0 },
    by decide, by decide⟩
 
+/-- **"Earlier" is transitive** - for ALL records, no side condition: if `a` is earlier than `b`
+    and `b` earlier than `c` then `a` is earlier than `c`.  With antisymmetry and `compare_eq_iff`
+    the comparison is a strict total order on (class, type, RDATA), so among any number of
+    simultaneous claimants with different data exactly one is latest: three or more probers
+    cannot beat each other in a circle. -/
+theorem compare_transitive (a b c : Rec) (h1 : compareRec a b = .lt) (h2 : compareRec b c = .lt) :
+    compareRec a c = .lt :=
+  compareRec_lt_trans a b c h1 h2
+
+/-- ... in particular no cycle of three compatible records -/
+theorem no_cycle_of_three (a b c : Rec) (hca : compatible c a)
+    (h1 : compareRec a b = .lt) (h2 : compareRec b c = .lt) : compareRec c a ≠ .lt := by
+  have h3 := compare_transitive a b c h1 h2
+  have := ((compare_antisymm c a hca).2.2).mpr h3
+  rw [this]; decide
+
+example :
+    let r (ip : BList) : Rec := { name := [], ty := 1, cls := 1, flush := true, ttl := 120, rdata := .a ip, start := 0, stop := 0 }
+    compareRec (r [10, 0, 0, 1]) (r [10, 0, 0, 2]) = .lt ∧ compareRec (r [10, 0, 0, 2]) (r [10, 0, 1, 0]) = .lt ∧
+    compareRec (r [10, 0, 0, 1]) (r [10, 0, 1, 0]) = .lt := by decide
+
 /-- Two records compare equal exactly if class, type and RDATA are identical (owner name,
     TTL and cache-flush bit do not take part). -/
 theorem compare_eq_iff (a b : Rec) :
